@@ -56,10 +56,14 @@ def flatten_fmt(t):
 def subterms(t):
     """All sub-terms of a term (pre-order), descending into closure bodies is NOT done here."""
     stack = [t]
+    seen = set()
     while stack:
         x = stack.pop()
         if not isinstance(x, tuple):
             continue
+        if id(x) in seen:
+            continue  # shared sub-objects (phi terms repeat their 'before' value) are visited once
+        seen.add(id(x))
         yield x
         k = x[0]
         if k == "call":
